@@ -1,4 +1,16 @@
 ---------------------------- MODULE Policy ----------------------------
+(* Layer 6 (call policy): what the interpreted selector's Call branch decides for every spelling of a call
+   target, and which callable evaluation then reaches.  Anchor: flow/record/selector.py
+   RecordContextMatcher._eval (ast.Call, ast.Attribute, ast.GeneratorExp), resolve_attr_path.
+
+   Two parts kept apart on purpose: Policy(target, ingen) -- the decision -- and Resolve -- what is invoked
+   when the decision is "allowed".  C09: only whitelisted helpers, str/repr/any/all and whitelisted field-type
+   constructors are ever invoked; everything else is refused before anything is invoked.
+
+   Dev (as built before the repair):
+     "PathFromLastAttr"  the dotted path of a target that is not rooted at a Name is just its attribute names,
+                         so `lower(x).upper()` / `'abc'.upper()` look like the whitelisted helper `upper`
+     "GenVarCallable"    a generator variable bound to a callable value passes the namespace-callable test *)
 EXTENDS Naturals, Sequences, FiniteSets, TLC
 CONSTANT Dev    \* subset of {"PathFromLastAttr", "GenVarCallable"}
 \* ---- name classes in the interpreter namespace (self.data) ----
@@ -19,7 +31,10 @@ Attrs == PlainMeth \cup ShadowMeth \cup Dunder \cup {"s", "ipaddress"}
 Bases == {[b |-> "name", n |-> n] : n \in {"r", "net", GenVar} \cup Helpers \cup NotAllowedNames}
            \cup {[b |-> "callres"], [b |-> "const"], [b |-> "paren"]}
 Chains == {<<>>} \cup {<<x>> : x \in Attrs} \cup {<<x, y>> : x \in Attrs, y \in Attrs}
-Targets == {[base |-> b, chain |-> c] : b \in Bases, c \in Chains} \cup {[base |-> [b |-> "lambda"], chain |-> <<>>], [base |-> [b |-> "subscript"], chain |-> <<>>]}
+\* call = TRUE: the shape is the target of a call; call = FALSE: it is only read (attribute access without a call)
+Targets == {[base |-> b, chain |-> c, call |-> k] : b \in Bases, c \in Chains, k \in BOOLEAN}
+              \cup {[base |-> [b |-> "lambda"], chain |-> <<>>, call |-> k] : k \in BOOLEAN}
+              \cup {[base |-> [b |-> "subscript"], chain |-> <<>>, call |-> k] : k \in BOOLEAN}
 InGen == BOOLEAN       \* is the call inside a generator expression whose variable f is bound to a callable canary?
 \* ---- what the Call branch decides ----
 SyntaxOK(t) == t.base.b \notin {"lambda", "subscript"} /\ ~(t.chain = <<>> /\ t.base.b \in {"callres", "const", "paren"})
@@ -39,7 +54,6 @@ Policy(t, ingen) ==
     ELSE IF t.base.b = "name" /\ t.base.n = GenVar /\ t.chain = <<>> THEN ("GenVarCallable" \in Dev /\ ingen)
     ELSE IF "PathFromLastAttr" \in Dev THEN PolicyAsBuilt(t, ingen) ELSE PolicyIntended(t, ingen)
 \* ---- what evaluating node.func then yields (only reached when Policy holds) ----
-HasDunder(t) == \E i \in DOMAIN t.chain : t.chain[i] \in Dunder
 \* classes of callable objects
 Resolve(t, ingen) ==
     IF t.chain = <<>> THEN
@@ -47,16 +61,28 @@ Resolve(t, ingen) ==
          ELSE IF t.base.n = GenVar /\ ingen THEN "canary-callable" ELSE "other")
     ELSE IF t.base.b = "name" /\ (<<t.base.n>> \o t.chain) \in CtorPaths THEN "ctor"
     ELSE "method-of-value"          \* getattr(value, last attr): an arbitrary bound method
+HasDunder(t) == \E i \in DOMAIN t.chain : t.chain[i] \in Dunder
+\* reading (no call): lambdas and subscripts are not part of the language; double-underscore attributes are refused;
+\* a name must exist in the namespace or be a field-type root
+NameKnown(n, ingen) == n \in {"r"} \cup Roots \cup DataCallables \/ (n = GenVar /\ ingen)
+ReadOutcome(t, ingen) ==
+    IF t.base.b \in {"lambda", "subscript"} THEN "refused"
+    ELSE IF t.base.b = "name" /\ ~NameKnown(t.base.n, ingen) THEN "refused"
+    ELSE IF HasDunder(t) THEN "refused"
+    ELSE "read"
 Outcome(t, ingen) ==
-    IF ~SyntaxOK(t) THEN "refused"
+    IF ~t.call THEN ReadOutcome(t, ingen)
+    ELSE IF ~SyntaxOK(t) THEN "refused"
     ELSE IF ~Policy(t, ingen) THEN "refused"
     ELSE IF HasDunder(t) THEN "refused"                \* Attribute branch raises before getattr
     ELSE Resolve(t, ingen)
-Safe == {"refused", "helper", "builtin4", "ctor"}
-VARIABLES t, g
-Init == t \in Targets /\ g \in InGen
-Next == UNCHANGED <<t, g>>
-Spec == Init /\ [][Next]_<<t, g>>
+Safe == {"refused", "helper", "builtin4", "ctor", "read"}
+\* syntactic context the call is nested in (the decision must not depend on it)
+Contexts == {"bare", "arg", "operand", "listelt", "genelt", "geniter", "gencond", "kwarg", "not", "boolop"}
+VARIABLES t, g, ctx
+Init == t \in Targets /\ g \in InGen /\ ctx \in Contexts
+Next == UNCHANGED <<t, g, ctx>>
+Spec == Init /\ [][Next]_<<t, g, ctx>>
 OnlyWhitelistedInvoked == Outcome(t, g) \in Safe
 =============================================================================
 
